@@ -131,6 +131,11 @@ var c09Stores = []c09Case{
 	{"{ x = $.n; x = 9; y = $.arr; z = $.obj.k.z; z = 8 }", func(d map[string]any) {}, ""},
 	{"{ a.b.c = 1; a.l[2] = 2; u = 5; u = 'q'; print a.b.c, a.l.length(), u }", func(d map[string]any) {}, "1 3 q\n"},
 	{"{ x = 5; x.y = 1 }", nil, ""},
+	// the right-hand side creates the same missing parent that the target needs
+	{"{ a.x.p = a.x.q = 1; print a }", func(d map[string]any) {}, "{\"x\": {\"p\": 1, \"q\": 1}}\n"},
+	{"{ $.obj.new.p = $.obj.new.q = 1 }", func(d map[string]any) { obj(d, "obj")["new"] = map[string]any{"p": 1.0, "q": 1.0} }, ""},
+	{"{ b.l[1] = b.l[0] = 2; c.k.j.p = c.k.j.q = c.k.r = 3; print b, c }", func(d map[string]any) {}, "{\"l\": [2, 2]} {\"k\": {\"j\": {\"p\": 3, \"q\": 3}, \"r\": 3}}\n"},
+	{"function mk() { g.made.a = 1; return 2 }\n{ g.made.b = mk(); print g }", func(d map[string]any) {}, "{\"made\": {\"a\": 1, \"b\": 2}}\n"},
 	{"{ $.e[0] = 1; $.e[-1] = 2 }", func(d map[string]any) { d["e"] = []any{2.0} }, ""},
 	{"{ $.e[-1] = 2 }", nil, ""},
 }
